@@ -183,6 +183,10 @@ let () =
   let cmd = ref 0 in
   let add_handle i = handles := Array.append !handles [|i|] in
   let h s = !handles.(int_of_string s) in
+  let noflags = ref false in
+  let live_handles () = List.filter (fun i -> i >= 0) (Array.to_list !handles) in
+  let statics = [0; 1; 2; 3; 4] in
+  let valid l = List.for_all (fun s -> h s >= 0) l in
   let var_index i = try Hashtbl.find varidx i with Not_found -> -1 in
   let out s = Printf.printf "%s %d %s\n" !case_id !cmd s in
   let set (res : float arena * nat) = a := fst res; add_handle (int_of_nat (snd res)) in
@@ -193,13 +197,52 @@ let () =
       (match toks with
        | [] -> ()
        | "case" :: id :: _ ->
-           case_id := id; cmd := 0; a := init_arena f32; handles := [||]; Hashtbl.reset optflag;
+           case_id := id; cmd := 0; a := init_arena f32; handles := [||]; Hashtbl.reset optflag; noflags := false;
            Hashtbl.reset varidx; nvars := 0
-       | ["end"] -> ()
+       | ["end"] ->
+           incr cmd;
+           if !noflags then begin
+             handles := Array.map (fun _ -> -1) !handles;
+             out (Printf.sprintf "END live=%d"
+                    (int_of_nat (live_count !a (List.map nat_of_int []) (List.map nat_of_int statics)) - List.length statics))
+           end
        | c :: rest ->
          incr cmd;
          (try
            (match c, rest with
+            | "capi", [] -> noflags := true
+            | "nullary", [op] ->
+                (match (try Some (op_of_name op) with Not_found -> None) with
+                 | Some o when (match args o with Some O -> true | _ -> false) -> set (mk_nullary !a o)
+                 | _ -> add_handle (-1))
+            | ("un" | "bin" | "remap" | "apply" | "opt" | "flatten" | "copy" | "saveload"), _
+              when !noflags && (let hs = (match c, rest with
+                                          | "un", [_; l] -> [l] | "bin", [_; l; r] -> [l; r]
+                                          | "remap", l -> l | "apply", l -> l
+                                          | _, [t] -> [t] | _ -> []) in not (valid hs)) ->
+                add_handle (-1)
+            | ("un" | "bin"), op :: _ when !noflags && (try ignore (op_of_name op); false with Not_found -> true) ->
+                add_handle (-1)
+            | "un", [op; _] when !noflags && (match args (op_of_name op) with Some (S O) -> false | _ -> true) -> add_handle (-1)
+            | "bin", [op; _; _] when !noflags && (match args (op_of_name op) with Some (S (S O)) -> false | _ -> true) -> add_handle (-1)
+            | "copy", [t] -> add_handle (h t)
+            | "print", [_] -> ()
+            | "delete", [t] -> !handles.(int_of_string t) <- -1
+            | "saveload", [t] ->
+                let sh = { sh_tree = nat_of_int (h t); sh_name = []; sh_doc = []; sh_vars = [] } in
+                let (a1, bytes) = serialize f32 enc_f32 !a [sh] in
+                let (a2, loaded) = deserialize f32 dec_f32 a1 bytes in
+                (match loaded with
+                 | s0 :: _ -> a := a2; add_handle (int_of_nat s0.sh_tree)
+                 | [] -> add_handle (-1))
+            | "check", [] ->
+                let hs = List.map nat_of_int (live_handles ()) in
+                let st = List.map nat_of_int statics in
+                let rcs = Array.to_list (Array.map (fun i ->
+                    if i < 0 then "-" else string_of_int (int_of_nat (rc_spec !a hs st (nat_of_int i)))) !handles) in
+                out (Printf.sprintf "R %s L %d" (String.concat " " rcs)
+                       (int_of_nat (live_count !a hs st) - List.length statics))
+            | "eval", [_] when !noflags -> ()
             | "const", [hx] -> set (mk_const !a (of_hex32 hx))
             | "x", [] -> set (mk_nullary !a VAR_X)
             | "y", [] -> set (mk_nullary !a VAR_Y)
@@ -214,11 +257,11 @@ let () =
             | "apply", [t; v; e] ->
                 (match mk_apply !a (nat_of_int (h t)) (nat_of_int (h v)) (nat_of_int (h e)) with
                  | Some res -> set res
-                 | None -> add_handle 3; out "EXC")
+                 | None -> if !noflags then add_handle (-1) else (add_handle 3; out "EXC"))
             | "flatten", [t] -> set (flatten f32 !a (nat_of_int (h t)))
             | "opt", [t] ->
                 (* Tree::optimized on a handle that carries the flag returns it unchanged *)
-                if Hashtbl.mem optflag (int_of_string t) then add_handle (h t)
+                if (not !noflags) && Hashtbl.mem optflag (int_of_string t) then add_handle (h t)
                 else set (optimized f32 !a (nat_of_int (h t)));
                 Hashtbl.replace optflag (Array.length !handles - 1) true
             | "dump", [t] -> out ("D " ^ dump_dag !a (h t) var_index)
